@@ -145,6 +145,23 @@ CHECKS["C19"] = dict(
    note=COMMON_NOTE + "Theorem parameters (Section variables, no axioms): content/hash with hash_injective (md5 collisions outside the model; a missing file hashes like an empty one), analysis/recorded with FRAME. cattrs is modelled only as far as hit / no hit is concerned. A run that exceeds the badness threshold exits before writing the cache and is outside the model. Version / plugin changes are arranged by the harness driver from outside /repo. Creation of a module that did not resolve when the cache was written is outside the property's statement ('every module whose analysis fed the cached results') and outside the histories.",
    design_ref="DESIGN.md section 6 C19, section 11")
 
+IMP_NOTE = COMMON_NOTE + ("Shared import model coq/model/Imports.v (+Results.v). Oracles: the module locator (module name / origin of a qualified name - modelled and proved for C13), is_in_import_blacklist / is_in_pip / is_in_stdlib as the real run evaluates them, the options. "
+   "Root contexts and per-module IRs are taken from the real run (FunctionAnalyser behaviour is C01/C02/C09's). harness/imp_lib.py generates the projects and wraps find_call_target_and_ir from outside.")
+CHECKS["C06"] = dict(
+   technique="Coq: resolver theorem by induction over re-export chains of any length (inductive `chain` predicate), linking lemma into the result-generation model, kernel-checked refutations (aliased from-import; re-export cycle for every fuel); metamorphic comparison split-project vs single-file merge on the real pipeline over 12 import forms x package layouts x cycles; exact model/rattr correspondence of results, mutated IR, every call resolution and analysed modules",
+   text=("C06_resolver_follows_reexport_chains (any chain length, functions and classes), C06_imported_call_expands_like_local_call (an imported call resolves to exactly the entry a local call to the definition resolves to, so the fold is the same), "
+         "C06_unresolved_import_contributes_nothing; REFUTED: C06_aliased_from_import_refuted (KF_C06_1), C06_reexport_cycle_refuted (for every fuel; KF_C06_4). 'Same answer as the single file' is decided per generated project by comparing the real results of the split project with the real results of its merge; "
+         "a difference is a known finding only when the project contains a reference of a listed finding class (aliased from-import, dotted import without alias, imported class instantiation, static method through module / through from-import, re-export cycle) AND the model reproduces rattr's results, mutated IR and every call resolution exactly."),
+   note=IMP_NOTE + " Function / class names are unique across modules of a generated project; call graphs are tree-shaped with plain-name arguments (outside the C03 finding classes).",
+   design_ref="DESIGN.md section 6 C06, section 11")
+CHECKS["C12"] = dict(
+   technique="Coq: BFS invariants by induction on fuel for arbitrary import graphs (soundness w.r.t. the filter ladder, NoDup of origins, closure under imports of analysed modules = completeness), resolver answers only within analysed permitted modules; specification = closure of the import graph read from sources with Python's ast / PathFinder under an independent classification, judged in Coq against what rattr analysed; model/rattr correspondence of import_irs (names, origins, order)",
+   text=("For every import graph (cycles, diamonds), queue, classification and option setting: C12_only_permitted_modules_are_analysed, C12_level_0_analyses_nothing, C12_each_origin_once, C12_analysed_set_is_closed (every import of the target and of every analysed module is unresolvable, not permitted, or analysed - hence every permitted module reachable through permitted modules is analysed), "
+         "C12_unanalysed_modules_contribute_nothing. The oracles (locator, blacklist / pip / stdlib predicates) are tied to the levels by the specification side of ./check C12: generated projects over local modules and packages, a site-packages directory (regular package, plain module, PEP 420 namespace package), stdlib modules and rattr itself, x follow level 0-3 x exclusion patterns; "
+         "the set rattr analysed must equal the closure of the source-level import graph filtered by directory-based classification; distinctive attributes of functions in non-analysed modules must not appear in results; `-o stats` unique-import count must equal the number of analysed modules."),
+   note=IMP_NOTE + " The specification's import graph counts the module an import statement names (for `from m import x`: m.x if that is a module, else m), not the package __init__ files Python executes on the way. Level 3 is exercised only with stdlib modules free of extension-module imports (README warning).",
+   design_ref="DESIGN.md section 6 C12, section 11")
+
 NOT_YET = {}
 
 def main():
